@@ -2,6 +2,9 @@
    case := (0 hmode names conscodes ops results)   operation sequence on one vector and its curried views
          | (1 tuples children)                      final-state figures of a stress run
          | (2 bytes valid)                          utf8.ValidString micro-correspondence
+         | (3 hmode names progs sched results flags)  one explored interleaving of concurrent callers:
+             progs per thread ((0 tuple) | (1 tuple) | (2 labels) | (3)), sched = thread ids in the order
+             their critical sections (RLock / Lock) were granted, results per thread in program order
    op     := (0 v must lvs) | (1 v must labels) | (2 v must labels) | (3 v lvs) | (4 v labels)
            | (5 v labels) | (6 v) | (7 v)           labels := ((name value) ...)
    result := (0 id) | (1 err panicked) | (2 bool) | (3 n) | (4) | (5 ((values id) ...)) | (6) *)
@@ -83,6 +86,60 @@ Definition model_results (k : scase) : list result :=
   fst (run fnv_offset64 (hmode_add (k_hm k)) (hmode_addb (k_hm k)) (k_names k) (mk_cstr (k_names k) (k_codes k))
            init_world (k_ops k)).
 
+
+(* ---- explored interleavings (stream sched) ---- *)
+Definition d_creq (names : list str) (s : sx) : option creq :=
+  match s with
+  | SL [SZ 0; t] => match dL dStr t with Some t => Some (QGet t) | None => None end
+  | SL [SZ 1; t] => match dL dStr t with Some t => Some (QDel t) | None => None end
+  | SL [SZ 2; l] => match d_lbls l with Some l => Some (QPartial (sel_partial names [] [] l)) | None => None end
+  | SL [SZ 3] => Some QReset
+  | _ => None
+  end.
+
+(* take the next result of thread tid *)
+Fixpoint pop_nth (l : list (list result)) (tid : nat) : option (result * list (list result)) :=
+  match l, tid with
+  | [], _ => None
+  | rs :: r, O => match rs with x :: rs' => Some (x, rs' :: r) | [] => None end
+  | rs :: r, S k => match pop_nth r k with Some (x, r') => Some (x, rs :: r') | None => None end
+  end.
+
+(* the model's history (calls in the order of their last critical section) carrying the results the
+   implementation returned; None when the implementation made fewer calls than the model *)
+Fixpoint impl_history (h : list cevent) (rem : list (list result)) : option (list cevent * list (list result)) :=
+  match h with
+  | [] => Some ([], rem)
+  | e :: r =>
+    match pop_nth rem (e_tid e) with
+    | Some (x, rem') =>
+      match impl_history r rem' with
+      | Some (h', rem'') => Some (mkE (e_tid e) (e_req e) x :: h', rem'')
+      | None => None
+      end
+    | None => None
+    end
+  end.
+
+Fixpoint events_eqb (a b : list cevent) : bool :=
+  match a, b with
+  | [], [] => true
+  | x :: a', y :: b' => result_eqb (e_res x) (e_res y) && events_eqb a' b'
+  | _, _ => false
+  end.
+
+Definition check_sched (hm : Z) (names : list str) (progs : list (list creq)) (sched : list nat)
+           (res : list (list result)) (flags : Z) : Z :=
+  let H := Hfold fnv_offset64 (hmode_add hm) (hmode_addb hm) in
+  let '(c', hist) := crun H (cinit_run progs) sched in
+  let all_done := forallb (fun th => match t_todo th with [] => true | _ => false end) (c_thr c') in
+  match impl_history hist res with
+  | Some (ih, rem) =>
+      let complete := all_done && forallb (fun l => match l with [] => true | _ => false end) rem in
+      both (lin_ok init_sworld ih && (flags =? 0)) (complete && events_eqb hist ih)
+  | None => both (flags =? 0) false
+  end.
+
 Definition d_triple (s : sx) : option (Z * Z * Z) := dT3 dZ dZ dZ s.
 
 Definition check (s : sx) : Z :=
@@ -103,6 +160,15 @@ Definition check (s : sx) : Z :=
       match dStr bytes, dB valid with
       | Some b, Some v => both true (Bool.eqb (utf8_valid b) v)
       | _, _ => code_decode_error
+      end
+  | SL [SZ 3; SZ hm; nm; progs; sched; res; SZ flags] =>
+      match dL dStr nm with
+      | Some nm =>
+          match dL (dL (d_creq nm)) progs, dL dNat sched, dL (dL d_result) res with
+          | Some progs, Some sched, Some res => check_sched hm nm progs sched res flags
+          | _, _, _ => code_decode_error
+          end
+      | None => code_decode_error
       end
   | _ => code_decode_error
   end.
@@ -140,5 +206,17 @@ Definition explain (s : sx) : sx :=
       | None => SL []
       end
   | SL [SZ 2; bytes; _] => match dStr bytes with Some b => SL [eB (utf8_valid b)] | None => SL [] end
+  | SL [SZ 3; SZ hm; nm; progs; sched; _; _] =>
+      match dL dStr nm with
+      | Some nm =>
+          match dL (dL (d_creq nm)) progs, dL dNat sched with
+          | Some progs, Some sched =>
+              let H := Hfold fnv_offset64 (hmode_add hm) (hmode_addb hm) in
+              (* the model's history: (thread, result) in the order of the last critical sections *)
+              eL (fun e => SL [SZ (Z.of_nat (e_tid e)); e_result (e_res e)]) (snd (crun H (cinit_run progs) sched))
+          | _, _ => SL []
+          end
+      | None => SL []
+      end
   | _ => SL []
   end.
